@@ -384,6 +384,20 @@ func runNodeBytes(in []byte) outcome {
 		return o
 	}
 	o := outcome{depth: 2}
+	// An accepted node is well formed: the label / key it carries has exactly the length its length field declares
+	// (computed here in plain ints, independently of Depth.ToBytes), and the operations later processing performs on
+	// it (bit access at the last declared position, splitting at it) work.
+	if in, ok := n.(*node.InternalNode); ok {
+		want := (int(in.LabelBitLength) + 7) / 8
+		if len(in.Label) != want {
+			o.rt = fmt.Sprintf("accepted internal node declares a label of %d bits (%d bytes) but carries %d label bytes", in.LabelBitLength, want, len(in.Label))
+			return o
+		}
+		if in.LabelBitLength > 0 {
+			_ = in.Label.GetBit(in.LabelBitLength - 1)
+			_, _ = in.Label.Split(in.LabelBitLength-1, in.LabelBitLength)
+		}
+	}
 	m1, err := n.MarshalBinary()
 	if err != nil {
 		o.rt = fmt.Sprintf("accepted node does not marshal: %v", err)
@@ -452,7 +466,7 @@ func nodeHot(in []byte) []int {
 }
 
 func buildNodesGroup() ([]*target, error) {
-	var seeds []seed
+	var seeds, extra []seed
 	addNode := func(name string, n node.Node) {
 		m, err := n.MarshalBinary()
 		if err != nil {
@@ -489,6 +503,24 @@ func buildNodesGroup() ([]*target, error) {
 		c1, _ := n.CompactMarshalBinaryV1()
 		seeds = append(seeds, seed{"internal-compact-v0", c0}, seed{"internal-compact-v1", c1})
 	}
+	// boundary label lengths (the length field is 16 bits of BITS: the byte length computation must not wrap)
+	for _, bits := range []uint16{65535, 65534, 65529, 65528, 65521, 32768, 8, 7} {
+		for _, withLabel := range []bool{false, true} {
+			b := []byte{node.PrefixInternalNode, byte(bits), byte(bits >> 8)}
+			if withLabel {
+				b = append(b, bytes.Repeat([]byte{0xff}, (int(bits)+7)/8)...)
+			}
+			b = append(b, node.PrefixNilNode)
+			lh, rh := hashOf("left"), hashOf("right")
+			full := append(append(append([]byte{}, b...), lh[:]...), rh[:]...)
+			if withLabel || bits == 0 {
+				seeds = append(seeds, seed{fmt.Sprintf("internal-bits-%d-label", bits), b}, seed{fmt.Sprintf("internal-bits-%d-label-hashes", bits), full})
+			} else {
+				// declared label missing: must be rejected (kept in the corpus as hostile shapes)
+				extra = append(extra, seed{fmt.Sprintf("internal-bits-%d-nolabel", bits), b}, seed{fmt.Sprintf("internal-bits-%d-nolabel-hashes", bits), full})
+			}
+		}
+	}
 	// nodes of a real tree, as they appear in proofs
 	ps, err := proofSeeds()
 	if err != nil {
@@ -501,7 +533,7 @@ func buildNodesGroup() ([]*target, error) {
 			}
 		}
 	}
-	nodes := &target{name: "node-unmarshal", doc: "1 node kind byte ok, 2 node decoded", seeds: seeds, wantDepth: 2, run: runNodeBytes, hot: nodeHot, cborPercent: -1}
+	nodes := &target{name: "node-unmarshal", doc: "1 node kind byte ok, 2 node decoded", seeds: seeds, extra: extra, wantDepth: 2, run: runNodeBytes, hot: nodeHot, cborPercent: -1}
 
 	var kseeds []seed
 	for _, k := range [][]byte{{}, []byte("k"), []byte("some key"), bytes.Repeat([]byte{0xff}, 255), bytes.Repeat([]byte{1}, 1000)} {
